@@ -27,7 +27,7 @@ LEVEL_NOTE = ("Tolerance 1e-6 relative to the largest contributing node (float32
               "monitor is not bit-for-bit). Cell-edge ties (X or Y = k + 1/2) admit either neighbouring cell as 'own cell'.")
 RULE = ("case = one world x 3 subgrids x 2000 positions (kinds: random nodes, per-level linear, linear in x,y,z over a flat bottom). Non-trivial: land faces contribute, positions "
         "on edges/rim and depths outside the level range are present; distinct by world parameters.")
-MANDATORY = ["neighbours_in_the_arrays_one_row_and_1000_columns_apart", "e2e_displacement_of_a_particle_stored_behind_one_that_died", "vertical_grid_from_Vinfo_Vstretching_2", "vertical_grid_from_Vinfo_file_without_Vtransform", "time_reversed_clock", "subgrid_with_negative_limits", "positions_compared", "land_face_contributes", "depth_above_top_level", "depth_below_bottom_level", "depth_on_level", "edge_tie_positions", "rim_positions",
+MANDATORY = ["all_particles_shallower_than_the_deepest_uppermost_level", "neighbours_in_the_arrays_one_row_and_1000_columns_apart", "e2e_displacement_of_a_particle_stored_behind_one_that_died", "vertical_grid_from_Vinfo_Vstretching_2", "vertical_grid_from_Vinfo_file_without_Vtransform", "time_reversed_clock", "subgrid_with_negative_limits", "positions_compared", "land_face_contributes", "depth_above_top_level", "depth_below_bottom_level", "depth_on_level", "edge_tie_positions", "rim_positions",
              "packed_storage", "packed_with_different_scale_factors", "subgrid_pairs_compared", "scalar_values_compared", "linear_levels_exact", "linear3d_exact", "convexity_checked", "vtransform2", "e2e_displacements_checked", "e2e_scalar_values_checked", "consecutive_update_values_compared", "second_file_with_other_packing", "later_frame_nonzero_on_land_faces_first_frame_zero", "grid_file_with_mask_u_and_mask_v"]
 ASSUMPTIONS = ["add_offset of packed u/v is zero (the code documents that it ignores it)", "positions inside the valid region of every subgrid used"]
 TIMEOUT = {"quick": 900, "thorough": 3400}
@@ -310,10 +310,19 @@ def run_case(case: dict[str, Any], wd: Path) -> dict[str, Any]:
     Z = rng.uniform(0, 1, size=n) * hcol
     Z[::7] = -rng.uniform(0, 3, size=len(Z[::7]))  # above the surface
     Z[3::7] = hcol[3::7] * rng.uniform(1.0, 1.3, size=len(Z[3::7]))  # below the bottom
+    all_shallow = bool(kind == "random" and case["idx"] % 6 == 5)
+    if all_shallow:
+        # a surface-drift cloud: every particle shallower than the deepest uppermost level of the area, many of them below the uppermost level of their own column
+        zt_ = min(float((-ZR[-1])[l_[2]:l_[3], l_[0]:l_[1]].max()) for l_ in lims)  # in every loaded (sub)grid of this case
+        Z = rng.uniform(0.0, 0.95 * zt_, size=n)
     Z[1::11] = 0.0
     on = np.arange(5, n, 13)
     kk = rng.integers(0, N, size=len(on))
+    if all_shallow:
+        kk[:] = N - 1
     Z[on] = -ZR[kk, Jc[on], Ic[on]]  # exactly on a level
+    if all_shallow:
+        Z[on] = np.minimum(Z[on], 0.95 * zt_)
     tieX = np.abs(X - np.floor(X) - 0.5) < 1e-12
     tieY = np.abs(Y - np.floor(Y) - 0.5) < 1e-12
 
@@ -468,6 +477,7 @@ def run_case(case: dict[str, Any], wd: Path) -> dict[str, Any]:
     sit["depth_on_level"] = len(on)
     sit["edge_tie_positions"] = int(np.sum(tieX | tieY))
     sit["rim_positions"] = 80
+    sit["all_particles_shallower_than_the_deepest_uppermost_level"] = int(all_shallow and bool(np.any(Z > -ZR[-1][Jc, Ic])))
     sit["neighbours_in_the_arrays_one_row_and_1000_columns_apart"] = npairs
     sit["packed_storage"] = int(packed)
     sit["packed_with_different_scale_factors"] = int(bool(packed) and spec["pack"]["u"] != spec["pack"]["v"])
